@@ -317,6 +317,10 @@ class IntermediateStates:
                                       "index generation needed in this case.")
 
         taylor_expansion = self.expand_S_taylor(order, min_order=2)
+        n_ov = n_ov_from_space(block[0])
+        sum_pref = Rational(
+            1, factorial(n_ov["occ"]) * factorial(n_ov["virt"])
+        )
         # create an index list: first and last element are the two provided
         # idx strings
         idx = list(indices)
@@ -335,7 +339,10 @@ class IntermediateStates:
             # all originate from x*x or x^3 etc.
             for term in termlist:
                 relevant_idx = idx[:len(term)] + [idx[-1]]
-                i1 = pref
+                # each matrix product sums over the index tuple of an
+                # intermediate configuration: lifting the index restrictions
+                # of that sum gives 1 / (n_occ! * n_virt!) per product
+                i1 = pref * sum_pref ** (len(term) - 1)
                 for o in term:
                     i1 *= self.overlap_precursor(
                         order=o, block=block, indices=tuple(relevant_idx[:2])
